@@ -127,6 +127,19 @@ def boundary_cases():
             if name in ("dwt_depth", "dwt_depth_ho"):
                 rows[idx["quantization_matrix"]][1] = "default"
             yield ["boundary:%s:min%+d" % (name, delta)], rows
+    # names containing str.format metacharacters combined with a defect elsewhere in the same column
+    for nm in ("hq {4:2:2}", "set{}", "{name}", "{0}", "a}b{", "100%", "%s %d"):
+        for field, bad in (("dwt_depth", "x"), ("frame_width", ""), ("profile", "zzz"), ("lossless", "maybe"), (None, None)):
+            rows = [r[:] for r in base]
+            rows[idx["name"]][1] = nm
+            if field is None:
+                del rows[idx["slices_x"]]
+            else:
+                rows[idx[field]][1] = bad
+            yield ["boundary:name=%r+defect:%s" % (nm, field or "missing-row")], rows
+        rows = [r[:] for r in base]
+        rows[idx["name"]][1] = nm
+        yield ["boundary:name=%r" % nm], rows
     # lossless variants
     for ll, pb in (("TRUE", ""), ("TRUE", "24"), ("TRUE", "0"), ("FALSE", ""), ("FALSE", "0"), ("FALSE", "1"), ("yes", "1"), ("1", ""), ("0", "")):
         rows = [r[:] for r in base]
